@@ -152,6 +152,8 @@ def _s2c_worker(args):
     recs = []
     for rid, st, op, fam in jobs:
         g = kit.families[fam % len(kit.families)]()
+        if not in_domain(g, op):
+            g = kit.families[0]()
         try:
             H = kit.build(st, g)
         except Exception as ex:  # noqa: BLE001
@@ -265,6 +267,32 @@ def traced_build(kit, rid, st, fam, rng):
 # ---------------------------------------------------------------------------
 # C->S
 # ---------------------------------------------------------------------------
+BULK_LIST_OPS = {"add_edges_from", "add_simplices_from", "add_weighted_edges_from", "add_weighted_simplices_from",
+                 "add_nodes_from", "update"}
+
+
+def in_domain(g, op):
+    """The list formats of the bulk calls are told apart by looking into their first item; with labels
+    that are strings *and* non-strings in one network (a 2-list starting with a string reads as
+    (members, id)) they are ambiguous by construction, so such calls are outside the documented domain
+    (the dict format, and every non-bulk call, stay inside)."""
+    if getattr(g, "node_kind", "") != "mixed":
+        return True
+    return not (op["name"] in BULK_LIST_OPS and op.get("fmt", 0) != 5)
+
+
+def domain_gen(gen, g):
+    def f(rng, j, nn=6):
+        for _ in range(30):
+            op = gen(rng, j, nn)
+            if in_domain(g, op):
+                return op
+        from .hg import mkop
+
+        return mkop("add_node", n=rng.randrange(nn))
+    return f
+
+
 def freezing_gen(gen):
     """wrap a generator of random ops so that histories freeze the network at some point"""
     from .hg import mkop
@@ -291,7 +319,7 @@ def _c2s_worker(args):
         rng = random.Random((seed_ << 20) + hid)
         g = kit.families[hid % len(kit.families)]()
         out += drive_hg.run_history(f"{kit.name}{hid}", rng, length, gamma=g, nn=kit.nn, cls=kit.cls,
-                                    call=kit.call, proj=kit.proj, gen=gen, obs=kit.obs, **extra)
+                                    call=kit.call, proj=kit.proj, gen=domain_gen(gen, g), obs=kit.obs, **extra)
     return out
 
 
